@@ -181,7 +181,13 @@ Theorem C05_string_detection :
 Proof. exact (conj string_detection string_capacity). Qed.
 Print Assumptions C05_string_detection.
 
-(* the JSON view holds no type class and no _struct_members at any depth, whatever was uploaded *)
+(* the JSON view holds no type class and no _struct_members at any depth, whatever was uploaded.
+   In the model tags_json is a FUNCTION of the uploaded tags (Model/LogixUpload.tags_json : list mtag ->
+   pyval, built from copies): the driver state is neither an argument nor a result, so reading the view
+   cannot change tags / data_types.  On the implementation this purity is checked, not assumed: the
+   oracle reads tags_json twice and requires tags / data_types (type classes included) unchanged, still
+   equal to the abstract view, and a structure-member read through the live target still correct; the
+   correspondence compares the dictionaries AFTER the view was read *)
 Theorem C05_tags_json_serialisable : forall tags, serialisable (tags_json tags) = true.
 Proof. exact tags_json_serialisable. Qed.
 Print Assumptions C05_tags_json_serialisable.
